@@ -491,6 +491,15 @@ type world struct {
 	sawSpecial    bool // a zero-length op, deadline, cancel, reject or close was exercised
 	outcomes      map[string]int
 	logf          func(string, ...interface{})
+	// accLog[s] lists, in order, the calls of side s that handed something to
+	// the multiplexer's accumulator goroutine (reads that consumed bytes,
+	// CloseWrite, Close) while side s had no write buffer available, i.e. while
+	// that accumulator could not flush. Its pending contents are private to a
+	// goroutine and not visible through VerifState; the order of these calls is
+	// what determines them, so it is part of the state key. It is empty
+	// whenever a write buffer is available at quiescence (always, with a
+	// carrier that never blocks).
+	accLog [2][]string
 }
 
 func newWorld(cfg *Config) *world {
@@ -727,6 +736,20 @@ func (w *world) observe(step int) {
 			}
 			c.processed = true
 			w.fold(c, step)
+			if (c.kind == "read" && c.count > 0) || c.kind == "closeWrite" || c.kind == "close" {
+				w.accLog[c.side] = append(w.accLog[c.side], fmt.Sprintf("%d.%s%d", c.id, c.kind, c.count))
+			}
+		}
+	}
+	for s := 0; s < 2; s++ {
+		if len(w.accLog[s]) > 0 && !w.wires[1-s].readerMidPayload() {
+			if i := strings.Index(w.mux[s].VerifState(), "wavail="); i >= 0 {
+				var avail int
+				fmt.Sscanf(w.mux[s].VerifState()[i:], "wavail=%d", &avail)
+				if avail > 0 {
+					w.accLog[s] = nil
+				}
+			}
 		}
 	}
 	w.invariants(step)
@@ -1042,7 +1065,7 @@ func (w *world) key() string {
 		}
 	}
 	sort.Strings(pend)
-	fmt.Fprintf(&b, "pending=%v\nA>B %s\nB>A %s\n", pend, w.wires[0].key(), w.wires[1].key())
+	fmt.Fprintf(&b, "pending=%v\nA>B %s\nB>A %s\nunflushed A=%v B=%v\n", pend, w.wires[0].key(), w.wires[1].key(), w.accLog[0], w.accLog[1])
 	return b.String()
 }
 
